@@ -3444,6 +3444,101 @@ pub open spec fn foldable<S: DSet>(ds: &S, d: usize) -> bool {
     }
 //@ end
 
+// ---- C04: "the minimality test is true exactly when the coarsest degree-respecting congruence is the identity" (connected symbols)
+pub open spec fn path_ok<S: DSet>(ds: &S, p: Seq<int>) -> bool { forall|k: int| 0 <= k < p.len() ==> 0 <= #[trigger] p[k] <= ds.sdim() }
+pub open spec fn walk<S: DSet>(ds: &S, p: Seq<int>, x: usize) -> usize
+    decreases p.len()
+{
+    if p.len() == 0 { x } else { img(ds, p.last(), walk(ds, p.drop_last(), x)) }
+}
+// every chamber is reached from chamber 1 by a sequence of operations
+pub open spec fn connected_from_1<S: DSet>(ds: &S) -> bool {
+    forall|y: usize| rng(ds, y) ==> exists|p: Seq<int>| path_ok(ds, p) && #[trigger] walk(ds, p, 1) == y
+}
+// the only degree-respecting congruence is the identity
+pub open spec fn only_trivial_congruence<S: DSet>(ds: &S) -> bool {
+    forall|q: spec_fn(usize) -> usize, x: usize, y: usize| congruence(ds, q) && homogeneous(ds, q) && rng(ds, x) && rng(ds, y) && #[trigger] same_r(q, x, y) ==> x == y
+}
+
+proof fn lemma_walk_rng<S: DSet>(ds: &S, p: Seq<int>, x: usize)
+    requires ds.wf(), base_complete(ds), path_ok(ds, p), rng(ds, x)
+    ensures rng(ds, walk(ds, p, x))
+    decreases p.len()
+{
+    if p.len() > 0 {
+        lemma_walk_rng(ds, p.drop_last(), x);
+        assert(0 <= p[p.len() - 1] <= ds.sdim());
+        lemma_img_rng(ds, p.last(), walk(ds, p.drop_last(), x));
+    }
+}
+
+proof fn lemma_img_involution<S: DSet>(ds: &S, i: int, x: usize)
+    requires ds.wf(), base_complete(ds), rng(ds, x), 0 <= i <= ds.sdim()
+    ensures img(ds, i, img(ds, i, x)) == x, rng(ds, img(ds, i, x))
+{
+    lemma_bop(ds);
+    assert(1 <= bop(ds, i, x as int) <= ds.ssize() && bop(ds, i, bop(ds, i, x as int)) == x);
+}
+
+// a congruence that identifies two different chambers pulls back, along a path from chamber 1, to one that identifies chamber 1 with another chamber
+proof fn lemma_pull_back<S: DSet>(ds: &S, q: spec_fn(usize) -> usize, p: Seq<int>, y: usize) -> (z: usize)
+    requires ds.wf(), base_complete(ds), congruence(ds, q), path_ok(ds, p), rng(ds, y), q(walk(ds, p, 1)) == q(y)
+    ensures rng(ds, z), q(1) == q(z), z == 1 ==> y == walk(ds, p, 1)
+    decreases p.len()
+{
+    lemma_bop(ds);
+    if p.len() == 0 {
+        y
+    } else {
+        let p1 = p.drop_last();
+        let i = p.last();
+        assert(0 <= p[p.len() - 1] <= ds.sdim());
+        let x1 = walk(ds, p1, 1);
+        assert(path_ok(ds, p1)) by { assert forall|k: int| 0 <= k < p1.len() implies 0 <= #[trigger] p1[k] <= ds.sdim() by { assert(p1[k] == p[k]); } }
+        lemma_walk_rng(ds, p1, 1);
+        let x = img(ds, i, x1);
+        lemma_img_involution(ds, i, x1);
+        let y1 = img(ds, i, y);
+        lemma_img_involution(ds, i, y);
+        assert(same_r(q, x, y));
+        assert(cong_at(ds, q, x, y));
+        assert(q(img(ds, i, x)) == q(img(ds, i, y)));
+        let z = lemma_pull_back(ds, q, p1, y1);
+        if z == 1 {
+            assert(y1 == x1);
+            assert(img(ds, i, y1) == y);
+        }
+        z
+    }
+}
+
+proof fn lemma_minimal_iff_only_trivial<S: DSet>(ds: &S)
+    requires ds.wf(), base_complete(ds), connected_from_1(ds)
+    ensures (forall|d: usize| 2 <= d <= ds.ssize() ==> !#[trigger] foldable(ds, d)) <==> only_trivial_congruence(ds)
+{
+    lemma_bop(ds);
+    if forall|d: usize| 2 <= d <= ds.ssize() ==> !#[trigger] foldable(ds, d) {
+        assert forall|q: spec_fn(usize) -> usize, x: usize, y: usize| congruence(ds, q) && homogeneous(ds, q) && rng(ds, x) && rng(ds, y) && #[trigger] same_r(q, x, y) implies x == y by {
+            if x != y {
+                let p = choose|p: Seq<int>| path_ok(ds, p) && #[trigger] walk(ds, p, 1) == x;
+                let z = lemma_pull_back(ds, q, p, y);
+                assert(z != 1);
+                assert(refines(id_r(), q));
+                assert(good(ds, q, id_r(), 1, z));
+                assert(foldable(ds, z));
+            }
+        }
+    }
+    if only_trivial_congruence(ds) {
+        assert forall|d: usize| 2 <= d <= ds.ssize() implies !#[trigger] foldable(ds, d) by {
+            if foldable(ds, d) {
+                let q = choose|q: spec_fn(usize) -> usize| #[trigger] good(ds, q, id_r(), 1, d);
+                assert(same_r(q, 1, d));
+            }
+        }
+    }
+}
+
 //@ begin src/dsets.rs :: trait DSet: Sized :: fn is_minimal | props=C04
 //@ rw R11 /fn is_minimal\(&self\)/pub fn is_minimal<S: DSet>(this: &S)/
 //@ rw R11 /\bself\b/this/
@@ -3455,7 +3550,10 @@ pub open spec fn foldable<S: DSet>(ds: &S, d: usize) -> bool {
     pub fn is_minimal<S: DSet>(this: &S) -> (b: bool)
     requires this.wf(), base_complete(this)
     // true exactly when no chamber other than 1 itself can be merged with chamber 1 by a degree-respecting congruence
-    ensures b == (forall|d: usize| 2 <= d <= this.ssize() ==> !#[trigger] foldable(this, d))
+    ensures b == (forall|d: usize| 2 <= d <= this.ssize() ==> !#[trigger] foldable(this, d)),
+        // C04 "the minimality test is true exactly when [the number of classes of the coarsest degree-respecting congruence] equals the
+        // symbol's size", i.e. when the only such congruence is the identity (for a symbol every chamber of which is reached from chamber 1)
+        connected_from_1(this) ==> b == only_trivial_congruence(this),
     {
         proof { this.lemma_wf(); lemma_bop(this); }
         let p = Partition::new();
@@ -3493,6 +3591,7 @@ pub open spec fn foldable<S: DSet>(ds: &S, d: usize) -> bool {
                     assert(IteratorSpec::remaining(&rg)[d - 2] == d);
                 }
             }
+            if connected_from_1(this) { lemma_minimal_iff_only_trivial(this); }
         }
         __b
     }
@@ -3501,6 +3600,25 @@ pub open spec fn foldable<S: DSet>(ds: &S, d: usize) -> bool {
 // =====================================================================================================
 // vacuity guards: canary_* MUST FAIL, witness_* must verify
 // =====================================================================================================
+proof fn canary_connected_is_satisfiable(ds: &SimpleDSet)
+    requires ds.inv(), ds.size == 1, ds.dim == 2, base_complete(ds), connected_from_1(ds)
+    ensures false
+{}
+
+fn canary_is_minimal_contract<S: DSet>(ds: &S)
+    requires ds.wf(), base_complete(ds), connected_from_1(ds)
+    ensures false
+{
+    let b = is_minimal(ds);
+}
+
+fn canary_fold_contract<S: DSet>(ds: &S, p: &Partition)
+    requires ds.wf(), base_complete(ds), ds.ssize() >= 2, congruence(ds, repf(p)), homogeneous(ds, repf(p))
+    ensures false
+{
+    let r = fold(ds, p, 1, 2);
+}
+
 proof fn canary_partial_dset_invariant_is_satisfiable(ds: PartialDSet)
     requires ds.inv(), ds.size == 2, ds.dim == 2, ds.t(0, 1) == 2
     ensures false
